@@ -25,6 +25,7 @@ func CheckC11(tier string, seed uint64, rep *core.Reporter) (*core.Evidence, err
 		fmt.Sscan(v, &n)
 	}
 	total := &Result{Stats: map[string]int64{}}
+	detHash := ""
 	rejected := 0
 	reasons := map[string]int{}
 	feat := map[string]int{}
@@ -58,6 +59,9 @@ func CheckC11(tier string, seed uint64, rep *core.Reporter) (*core.Evidence, err
 			}
 		}
 		res, err := w.RunShards(w.Runsim, "c11", bseed, runs, 14, nil, nil, 40*time.Minute)
+		if err == nil && b == 0 {
+			detHash, err = w.DeterminismProbe(w.Runsim, "c11", bseed, 300, nil)
+		}
 		rejected += w.Rejected
 		for k, v := range w.Reasons {
 			reasons[k] += v
@@ -114,6 +118,8 @@ func CheckC11(tier string, seed uint64, rep *core.Reporter) (*core.Evidence, err
 			"components_real":        []string{"lox binary built from the current tree", "generated _LexerStateMachine compiled by the Go compiler", "unmodified loxlex/simplelexer driver"},
 			"components_simulated":   []string{"the byte stream (content and where it ends)", "liveness budget in PushRune calls and ticks"},
 			"components_stubbed":     []string{"the parser is not involved"},
+			"determinism_probe":      "same seed re-run with 14 shards/GOMAXPROCS=4 and 5 shards/GOMAXPROCS=1: all counters identical, hash " + detHash,
+			"stats_hash":             total.StatsHash(),
 			"known_findings_hit":     rep.KnownHits,
 		},
 		Assumptions: []string{
